@@ -372,9 +372,12 @@ func runGraph(c *core.Ctx) core.Result {
 	goja.VerifSetFuel(rt, opsFuel)
 	rt.SetMaxCallStackSize(400)
 	setMapper(rt, mapper)
-	mode := core.Pick(r, []string{"export", "export", "exportto-map", "exportto-slice", "node-ptr", "node-ptr", "node-val", "node-map", "node-slice"})
+	mode := core.Pick(r, []string{"export", "export", "exportto-map", "exportto-slice", "node-ptr", "node-ptr", "node-val", "node-map", "node-slice", "mixed", "mixed", "mixed", "mixed"})
 	cs := graphCase{Scenario: "graph", Mapper: mapperNames[mapper], Mode: mode}
 	st.Inc("graph:" + mode)
+	if mode == "mixed" {
+		return runGraphMixed(c, r, rt)
+	}
 	if c.Replay {
 		fmt.Printf("--- case --- scenario=graph mode=%s mapper=%s\n", mode, cs.Mapper)
 	}
